@@ -19,8 +19,14 @@ POS_TEXT = {
 }
 
 
-def render(b):
+def render(b, common=False):
+    """common: every USE ... ONLY / rename names one module, spelt with capitals (several USE statements of one module in a scope)."""
     sc, decls, refs = b["sc"], b["decls"], b["refs"]
+
+    def modname(d, lower=False):
+        if common and d["h"] in ("only", "ren"):
+            return "ext_mod" if lower else "Ext_Mod"
+        return "ext_%s" % d["n"]
     n = len(sc)
     kids = {i: [] for i in range(0, n + 1)}
     for i, s in enumerate(sc, 1):
@@ -41,9 +47,9 @@ def render(b):
             if d["h"] == "decl":
                 continue
             if d["h"] == "only":
-                lines.append(ind + "use ext_%s, only: %s" % (d["n"], d["n"]))
+                lines.append(ind + "use %s, only: %s" % (modname(d), d["n"]))
             elif d["h"] == "ren":
-                lines.append(ind + "use ext_%s, %s => other_name" % (d["n"], d["n"]))
+                lines.append(ind + "use %s, %s => other_name_%s" % (modname(d), d["n"], d["n"]))
             else:
                 lines.append(ind + "use ext_%s" % d["n"])
         for d in decls:
@@ -89,7 +95,7 @@ def render(b):
 
     def tree(i):
         syms = sorted([d["n"] for d in decls if d["s"] == i and d["h"] == "decl"] + ["k%d" % i])
-        mods = sorted({"ext_%s" % d["n"] for d in decls if d["s"] == i and d["h"] != "decl"})
+        mods = sorted({modname(d, lower=True) for d in decls if d["s"] == i and d["h"] != "decl"})
         nm = name[i] if sc[i - 1]["k"] != "blk" else "block:#"
         return [nm, syms, mods, [tree(c) for c in kids[i]]]
     return "\n".join(lines) + "\n", normtree([tree(i) for i in kids[0]])
@@ -155,7 +161,9 @@ def run(prop, tier=None, replay=None):
     chk.phase("generate")
     cases = []
     for i, b in enumerate(behs):
-        src, tree = render(b)
+        if "common" not in b:
+            b["common"] = bool(i % 2)
+        src, tree = render(b, common=b["common"])
         cases.append({"id": i, "src": src, "tree": tree, "beh": b})
     res = pmap(work, [{"id": c["id"], "src": c["src"]} for c in cases], timeout=120, batch=16)
     chk.phase("replay")
